@@ -96,11 +96,37 @@ func (a *An) blockGates(f *ssa.Function, depth int) map[*ssa.BasicBlock][]string
 			continue
 		}
 		for k, s := range b.Succs {
-			for _, t := range a.gateTerms(iff.Cond, k == 0, depth) {
-				for x := 0; x < n; x++ {
-					if pdom[s.Index][x] && (x == b.Index || !pdom[b.Index][x]) {
-						direct[x] = append(direct[x], dep{b.Index, t})
+			var deps []dep
+			if phi, isPhi := iff.Cond.(*ssa.Phi); isPhi && phi.Block() == b {
+				// a condition put together by && / || and kept as a value: what decided is the test on the edge the value
+				// came in by (and, for a computed operand, that operand); the gates of that predecessor carry over
+				deps = append(deps, dep{b.Index, ""})
+				for j, e := range phi.Edges {
+					p := b.Preds[j]
+					var ts []string
+					if pl, isIf := p.Instrs[len(p.Instrs)-1].(*ssa.If); isIf && len(p.Succs) == 2 && p.Succs[0] != p.Succs[1] {
+						ts = a.gateTerms(pl.Cond, p.Succs[0] == b, depth)
 					}
+					if c, isC := e.(*ssa.Const); isC {
+						if c.Value == nil || constant.BoolVal(c.Value) != (k == 0) {
+							continue
+						}
+					} else {
+						ts = append(ts, a.gateTerms(e, k == 0, depth)...)
+					}
+					deps = append(deps, dep{p.Index, ""})
+					for _, t := range ts {
+						deps = append(deps, dep{p.Index, t})
+					}
+				}
+			} else {
+				for _, t := range a.gateTerms(iff.Cond, k == 0, depth) {
+					deps = append(deps, dep{b.Index, t})
+				}
+			}
+			for x := 0; x < n; x++ {
+				if pdom[s.Index][x] && (x == b.Index || !pdom[b.Index][x]) {
+					direct[x] = append(direct[x], deps...)
 				}
 			}
 		}
@@ -113,7 +139,7 @@ func (a *An) blockGates(f *ssa.Function, depth int) map[*ssa.BasicBlock][]string
 		changed = false
 		for x := 0; x < n; x++ {
 			for _, d := range direct[x] {
-				if !sets[x][d.term] {
+				if d.term != "" && !sets[x][d.term] {
 					sets[x][d.term] = true
 					changed = true
 				}
@@ -178,7 +204,7 @@ func (a *An) gateSitesOf(f *ssa.Function, depth int, stack map[*ssa.Function]boo
 						restore()
 						for _, s := range inner {
 							set := map[string]bool{}
-							for _, x := range bg[b] {
+							for _, x := range a.unionMarks(bg[b], 0) {
 								set[x] = true
 							}
 							for _, x := range s.gates {
@@ -191,7 +217,7 @@ func (a *An) gateSitesOf(f *ssa.Function, depth int, stack map[*ssa.Function]boo
 					continue
 				}
 				if fw, isEff := eff[g]; isEff {
-					out = append(out, gateSite{a.C.alias(g), bg[b], fw})
+					out = append(out, gateSite{a.C.alias(g), a.unionMarks(bg[b], 0), fw})
 				}
 			}
 		}
@@ -409,6 +435,15 @@ func tf(b bool) string {
 // on the error result of a new helper, is replaced by the conditions inside the helper that lead to that outcome, so
 // that moving a condition (or a sequence of checked steps) into a helper of its own leaves the gates unchanged.
 func (a *An) gateTerms(v ssa.Value, truth bool, d int) []string {
+	out := a.gateTerms1(v, truth, d)
+	for i, t := range out {
+		// the index of a range loop (starts at -1, tested after the increment) reads as a counter from 0
+		out[i] = strings.ReplaceAll(t, "(phi((↺ + 1) / -1) + 1)", "phi((↺ + 1) / 0)")
+	}
+	return out
+}
+
+func (a *An) gateTerms1(v ssa.Value, truth bool, d int) []string {
 	v = resolveLocal(v)
 	switch x := v.(type) {
 	case *ssa.UnOp:
@@ -431,6 +466,12 @@ func (a *An) gateTerms(v ssa.Value, truth bool, d int) []string {
 					return exp
 				}
 			}
+			if other != nil && !isEq {
+				if alts := a.failAltsOf(other, d); alts != nil {
+					a.failAlts = append(a.failAlts, alts)
+					return []string{fmt.Sprintf("%s%d§", failMark, len(a.failAlts)-1)}
+				}
+			}
 			lt, rt := a.C.Term(l), a.C.Term(r)
 			if rt < lt && !isNilConst(r) || isNilConst(l) {
 				lt, rt = rt, lt
@@ -446,8 +487,14 @@ func (a *An) gateTerms(v ssa.Value, truth bool, d int) []string {
 			return []string{"(" + a.C.Term(r) + " < " + a.C.Term(l) + ")" + tf(!truth)}
 		}
 	case *ssa.Call:
-		if exp := a.expandBool(x, truth, d); exp != nil {
+		if exp := a.expandBool(x, 0, truth, d); exp != nil {
 			return exp
+		}
+	case *ssa.Extract:
+		if call, ok := x.Tuple.(*ssa.Call); ok {
+			if exp := a.expandBool(call, x.Index, truth, d); exp != nil {
+				return exp
+			}
 		}
 	}
 	return []string{a.C.Term(v) + tf(truth)}
@@ -484,27 +531,35 @@ func forwarder(g *ssa.Function) *ssa.Call {
 
 // expandBool: the conditions inside a new predicate helper (any shape, no effects) under which it returns the wanted
 // outcome; a forwarder of the reviewed tree reads as the call it forwards to.
-func (a *An) expandBool(call *ssa.Call, want bool, d int) []string {
+func (a *An) expandBool(call *ssa.Call, idx int, want bool, d int) []string {
 	g := call.Call.StaticCallee()
 	if g == nil || g.Blocks == nil || d > 3 || g.Pkg == nil || g.Pkg.Pkg != a.C.Otr.Pkg && g.Pkg.Pkg.Path() != sexpPath {
 		return nil
 	}
-	if b, ok := g.Signature.Results().At(0).Type().Underlying().(*types.Basic); g.Signature.Results().Len() != 1 || !ok || b.Kind() != types.Bool {
+	if idx >= g.Signature.Results().Len() {
+		return nil
+	}
+	if b, ok := g.Signature.Results().At(idx).Type().Underlying().(*types.Basic); !ok || b.Kind() != types.Bool {
 		return nil
 	}
 	if !a.C.isNew(g) {
-		if inner := forwarder(g); inner != nil {
+		if inner := forwarder(g); inner != nil && idx == 0 && g.Signature.Results().Len() == 1 {
 			restore := a.bindArgs(g, call)
 			defer restore()
 			return a.gateTerms(inner, want, d+1)
 		}
 		return nil
 	}
-	if len(g.FreeVars) > 0 || len(a.stateFieldsWritten(g)) > 0 {
+	if len(g.FreeVars) > 0 || len(a.stateFieldsWritten(g)) > 0 || g.Recover != nil {
 		return nil
 	}
 	restore := a.bindArgs(g, call)
 	defer restore()
+	return a.boolOutcome(g, idx, want, d)
+}
+
+// boolOutcome: the conditions inside g (with whatever its parameters are bound to) under which it returns want.
+func (a *An) boolOutcome(g *ssa.Function, idx int, want bool, d int) []string {
 	bg := a.blockGates(g, d+1)
 	set := map[string]bool{}
 	addAll := func(l []string) {
@@ -561,8 +616,8 @@ func (a *An) expandBool(call *ssa.Call, want bool, d int) []string {
 		addAll(a.gateTerms(v, want, d+1))
 	}
 	for _, b := range g.Blocks {
-		if r, ok := b.Instrs[len(b.Instrs)-1].(*ssa.Return); ok && len(r.Results) == 1 && (b == g.Blocks[0] || len(b.Preds) > 0) {
-			val(r.Results[0], b, 0)
+		if r, ok := b.Instrs[len(b.Instrs)-1].(*ssa.Return); ok && idx < len(r.Results) && (b == g.Blocks[0] || len(b.Preds) > 0) {
+			val(resolveLocal(r.Results[idx]), b, 0)
 		}
 	}
 	if !found {
@@ -891,6 +946,448 @@ func genConstArgs(a *An) {
 	fmt.Println()
 	fmt.Println("var frozenConstArgs = map[string][]string{")
 	g := a.currentConstArgs()
+	var keys []string
+	for k := range g {
+		keys = append(keys, k)
+	}
+	sort.Strings(keys)
+	for _, k := range keys {
+		var q []string
+		for _, x := range g[k] {
+			q = append(q, fmt.Sprintf("%q", x))
+		}
+		fmt.Printf("\t%q: {%s},\n", k, strings.Join(q, ", "))
+	}
+	fmt.Println("}")
+}
+
+// ---- what a function returns, and when ------------------------------------------------------------------------------
+// frozenReturns: function → for a function with one boolean result the conditions under which it answers true and those
+// under which it answers false; for any other function one entry per return statement: the conditions it is
+// control-dependent on and the constants among its results ("·" for a computed value). This is the decision skeleton of
+// the parsers, guards and predicates: a boundary moved by one (> for >=), a dropped or added early return, a result
+// flipped. Computed values are not compared here.
+
+func (a *An) currentReturns() map[string][]string {
+	out := map[string][]string{}
+	for _, f := range a.C.FuncSeq {
+		if f.Blocks == nil || a.C.isNew(f) {
+			continue
+		}
+		name := a.C.alias(f)
+		res := f.Signature.Results()
+		if res.Len() == 1 {
+			if b, ok := res.At(0).Type().Underlying().(*types.Basic); ok && b.Kind() == types.Bool && f.Recover == nil {
+				t := a.unionMarks(a.boolOutcome(f, 0, true, 0), 0)
+				fl := a.unionMarks(a.boolOutcome(f, 0, false, 0), 0)
+				out[name] = []string{"T: " + strings.Join(t, " & "), "F: " + strings.Join(fl, " & ")}
+				continue
+			}
+		}
+		if res.Len() == 0 {
+			continue
+		}
+		var l []string
+		for _, e := range a.returnEntries(f, 0) {
+			for _, gs := range a.multiplyMarks(e.gates, 0) {
+				if len(gs) == 0 {
+					continue
+				}
+				l = append(l, strings.Join(gs, " & ")+" => ("+strings.Join(e.res, ", ")+")")
+			}
+		}
+		if len(l) > 0 {
+			sort.Strings(l)
+			out[name] = l
+		}
+	}
+	return out
+}
+
+func (a *An) closedReturns(prop string) {
+	R := a.R
+	cur := a.currentReturns()
+	gp := map[string]string{}
+	for f, p := range a.fnProps() {
+		gp[a.C.alias(f)] = p
+	}
+	names := map[string]bool{}
+	for k := range cur {
+		names[k] = true
+	}
+	for k := range frozenReturns {
+		names[k] = true
+	}
+	n := 0
+	for _, fn := range sortedKeys(names) {
+		if !strings.Contains(gp[fn], prop) {
+			continue
+		}
+		frozen, known := frozenReturns[fn]
+		c, has := cur[fn]
+		if !known || !has {
+			continue // a function that is new, gone or no longer branches: the rules anchored on it say so
+		}
+		n++
+		if strings.Join(c, " || ") == strings.Join(frozen, " || ") {
+			R.Ok("P.returns-closed", "returns|"+fn, "the conditions under which "+fn+" returns what are the reviewed ones", "")
+			continue
+		}
+		was, is := map[string]bool{}, map[string]bool{}
+		for _, x := range frozen {
+			was[x] = true
+		}
+		for _, x := range c {
+			is[x] = true
+		}
+		var added, dropped []string
+		for x := range is {
+			if !was[x] {
+				added = append(added, x)
+			}
+		}
+		for x := range was {
+			if !is[x] {
+				dropped = append(dropped, x)
+			}
+		}
+		sort.Strings(added)
+		sort.Strings(dropped)
+		pos := ""
+		if f, ok := a.C.Fn(fn); ok {
+			pos = a.C.Pos(f.Pos())
+		}
+		R.Viol("P.returns-closed", "returns|"+fn, "the conditions under which "+fn+" returns what are the reviewed ones", pos,
+			"now: "+strings.Join(added, " || ")+"; reviewed: "+strings.Join(dropped, " || ")+" — a guard, a boundary or an outcome of this function changed")
+	}
+	R.Extra["functions_with_closed_return_conditions"] = n
+}
+
+func genReturns(a *An) {
+	fmt.Println()
+	fmt.Println("var frozenReturns = map[string][]string{")
+	g := a.currentReturns()
+	var keys []string
+	for k := range g {
+		keys = append(keys, k)
+	}
+	sort.Strings(keys)
+	for _, k := range keys {
+		var q []string
+		for _, x := range g[k] {
+			q = append(q, fmt.Sprintf("%q", x))
+		}
+		fmt.Printf("\t%q: {%s},\n", k, strings.Join(q, ", "))
+	}
+	fmt.Println("}")
+}
+
+// ---- failing outcomes of new helpers ----------------------------------------------------------------------------------
+// A branch taken because a new helper failed stands for the alternatives inside the helper: one per return that hands
+// back an error. In a set of gates the marker reads as the union of the alternatives; in the table of returns the entry
+// is multiplied, one entry per alternative (two checked steps moved into a helper remain two ways to fail).
+
+const failMark = "§FAIL"
+
+func (a *An) failAltsOf(v ssa.Value, d int) [][]string {
+	idx := 0
+	var call *ssa.Call
+	switch x := v.(type) {
+	case *ssa.Call:
+		call = x
+	case *ssa.Extract:
+		c, ok := x.Tuple.(*ssa.Call)
+		if !ok {
+			return nil
+		}
+		call, idx = c, x.Index
+	default:
+		return nil
+	}
+	g := call.Call.StaticCallee()
+	if g == nil || !a.C.isNew(g) || g.Blocks == nil || d > 3 || len(g.FreeVars) > 0 || g.Recover != nil {
+		return nil
+	}
+	restore := a.bindArgs(g, call)
+	defer restore()
+	bg := a.blockGates(g, d+1)
+	var alts [][]string
+	for _, b := range g.Blocks {
+		r, ok := b.Instrs[len(b.Instrs)-1].(*ssa.Return)
+		if !ok || idx >= len(r.Results) || (b != g.Blocks[0] && len(b.Preds) == 0) {
+			continue
+		}
+		e := resolveLocal(r.Results[idx])
+		if ld, isLd := e.(*ssa.UnOp); isLd && ld.Op == token.MUL {
+			return nil
+		}
+		if isNilConst(e) {
+			continue
+		}
+		set := map[string]bool{}
+		for _, x := range bg[b] {
+			set[x] = true
+		}
+		if !a.F.provablyNonNil(e) && !set["("+a.C.Term(e)+" == nil)=F"] {
+			for _, x := range a.gateTerms(&ssa.BinOp{Op: token.NEQ, X: e, Y: ssa.NewConst(nil, e.Type())}, true, d+1) {
+				set[x] = true
+			}
+		}
+		alts = append(alts, sortedKeys(set))
+	}
+	return alts
+}
+
+// unionMarks: a gate set with every failure marker replaced by the union of its alternatives.
+func (a *An) unionMarks(gates []string, d int) []string {
+	set := map[string]bool{}
+	for _, g := range gates {
+		if strings.HasPrefix(g, failMark) && d < 6 {
+			var n int
+			fmt.Sscanf(g[len(failMark):], "%d", &n)
+			for _, alt := range a.failAlts[n] {
+				for _, x := range a.unionMarks(alt, d+1) {
+					set[x] = true
+				}
+			}
+			continue
+		}
+		set[g] = true
+	}
+	return sortedKeys(set)
+}
+
+// multiplyMarks: the gate sets a gate set with failure markers stands for, one per combination of alternatives.
+func (a *An) multiplyMarks(gates []string, d int) [][]string {
+	for i, g := range gates {
+		if strings.HasPrefix(g, failMark) && d < 6 {
+			var n int
+			fmt.Sscanf(g[len(failMark):], "%d", &n)
+			rest := append(append([]string{}, gates[:i]...), gates[i+1:]...)
+			var out [][]string
+			for _, alt := range a.failAlts[n] {
+				out = append(out, a.multiplyMarks(append(append([]string{}, rest...), alt...), d+1)...)
+			}
+			return out
+		}
+	}
+	set := map[string]bool{}
+	for _, g := range gates {
+		set[g] = true
+	}
+	return [][]string{sortedKeys(set)}
+}
+
+type retEntry struct {
+	gates []string
+	res   []string
+}
+
+// returnEntries: one entry per return of f (gates, constants among the results); a return that hands on results of a
+// new helper stands for the helper's own returns.
+func (a *An) returnEntries(f *ssa.Function, d int) []retEntry {
+	bg := a.blockGates(f, d)
+	var out []retEntry
+	for _, b := range f.Blocks {
+		r, ok := b.Instrs[len(b.Instrs)-1].(*ssa.Return)
+		if !ok || (b != f.Blocks[0] && len(b.Preds) == 0) {
+			continue
+		}
+		res := make([]string, len(r.Results))
+		var hcall *ssa.Call
+		hidx := map[int]int{}
+		multi := false
+		for i, v := range r.Results {
+			v = resolveLocal(v)
+			res[i] = "·"
+			var call *ssa.Call
+			k := 0
+			switch x := v.(type) {
+			case *ssa.Const:
+				res[i] = constStr(x)
+			case *ssa.Extract:
+				if c, isC := x.Tuple.(*ssa.Call); isC {
+					call, k = c, x.Index
+				}
+			case *ssa.Call:
+				call = x
+			}
+			if call != nil {
+				// only in tail position: the call sits in the block of the return, nothing was decided on its results
+				if g := call.Call.StaticCallee(); g != nil && call.Block() == b && a.C.isNew(g) && g.Blocks != nil && d < 3 && len(g.FreeVars) == 0 && g.Recover == nil {
+					if hcall != nil && hcall != call {
+						multi = true
+					}
+					hcall = call
+					hidx[i] = k
+				}
+			}
+		}
+		if hcall == nil || multi {
+			out = append(out, retEntry{bg[b], res})
+			continue
+		}
+		g := hcall.Call.StaticCallee()
+		restore := a.bindArgs(g, hcall)
+		inner := a.returnEntries(g, d+1)
+		restore()
+		for _, e := range inner {
+			set := map[string]bool{}
+			for _, x := range bg[b] {
+				set[x] = true
+			}
+			for _, x := range e.gates {
+				set[x] = true
+			}
+			rr := append([]string{}, res...)
+			for i, k := range hidx {
+				if k < len(e.res) {
+					rr[i] = e.res[k]
+				}
+			}
+			out = append(out, retEntry{sortedKeys(set), rr})
+		}
+	}
+	return out
+}
+
+// ---- big-number operations that need a non-zero operand ---------------------------------------------------------------
+// frozenBigOps: function → the calls of math/big operations that panic on a zero divisor (Mod, Div, Quo, Rem, DivMod,
+// QuoRem, ModInverse*) or lose their bound with a zero modulus (Exp computes the unbounded power then), with the term of
+// that operand. A new such call, or one whose operand changed, divides by (or exponentiates modulo) a value nobody
+// reviewed: with a value taken from a message or a key file that is a crash or an unbounded computation.
+
+var bigOpsOperand = map[string]int{"Exp": 3, "Mod": 2, "Div": 2, "Quo": 2, "Rem": 2, "DivMod": 2, "QuoRem": 2, "ModInverse": 2, "ModSqrt": 2}
+
+// bigOpWrappers: functions of the two packages that hand one of their parameters on as that operand (mod, modExp,
+// mulMod, … and what wraps those): function → parameter index.
+func (a *An) bigOpWrappers() map[*ssa.Function]int {
+	w := map[*ssa.Function]int{}
+	for changed := true; changed; {
+		changed = false
+		for _, f := range a.C.FuncSeq {
+			if _, done := w[f]; done || f.Blocks == nil {
+				continue
+			}
+			for _, b := range f.Blocks {
+				for _, in := range b.Instrs {
+					call, ok := in.(ssa.CallInstruction)
+					if !ok {
+						continue
+					}
+					idx, isOp := a.bigOperandIndex(call, w)
+					if !isOp {
+						continue
+					}
+					if p, isP := call.Common().Args[idx].(*ssa.Parameter); isP {
+						for k, q := range f.Params {
+							if q == p {
+								if _, done := w[f]; !done {
+									w[f] = k
+									changed = true
+								}
+							}
+						}
+					}
+				}
+			}
+		}
+	}
+	return w
+}
+
+func (a *An) bigOperandIndex(call ssa.CallInstruction, w map[*ssa.Function]int) (int, bool) {
+	sc := call.Common().StaticCallee()
+	if sc == nil {
+		return 0, false
+	}
+	if k, ok := w[sc]; ok && k < len(call.Common().Args) {
+		return k, true
+	}
+	if sc.Pkg == nil || sc.Pkg.Pkg.Path() != "math/big" || sc.Signature.Recv() == nil || !strings.Contains(sc.Signature.Recv().Type().String(), "Int") {
+		return 0, false
+	}
+	idx, isOp := bigOpsOperand[sc.Name()]
+	if !isOp || idx >= len(call.Common().Args) {
+		return 0, false
+	}
+	return idx, true
+}
+
+func (a *An) currentBigOps() map[string][]string {
+	out := map[string][]string{}
+	w := a.bigOpWrappers()
+	for _, f := range a.C.FuncSeq {
+		for _, b := range f.Blocks {
+			for _, in := range b.Instrs {
+				call, ok := in.(ssa.CallInstruction)
+				if !ok {
+					continue
+				}
+				idx, isOp := a.bigOperandIndex(call, w)
+				if !isOp {
+					continue
+				}
+				o := a.C.alias(a.C.owner(f))
+				out[o] = append(out[o], a.C.alias(call.Common().StaticCallee())+"("+a.C.Term(call.Common().Args[idx])+")")
+			}
+		}
+	}
+	for k := range out {
+		sort.Strings(out[k])
+	}
+	return out
+}
+
+func (a *An) closedBigOps(rule string, roots ...string) {
+	R := a.R
+	cur := a.currentBigOps()
+	n := 0
+	var only map[string]bool
+	if len(roots) > 0 {
+		only = map[string]bool{}
+		for _, g := range a.reachableFns(roots...) {
+			only[a.C.alias(a.C.owner(g))] = true
+		}
+	}
+	for _, fn := range sortedKeys(func() map[string]bool {
+		m := map[string]bool{}
+		for k := range cur {
+			m[k] = true
+		}
+		return m
+	}()) {
+		if only != nil && !only[fn] {
+			continue
+		}
+		cnt := map[string]int{}
+		for _, x := range frozenBigOps[fn] {
+			cnt[x]++
+		}
+		var added []string
+		for _, x := range cur[fn] {
+			if cnt[x] > 0 {
+				cnt[x]--
+				continue
+			}
+			added = append(added, x)
+		}
+		n++
+		R.Check(len(added) == 0, rule, "bigops|"+fn, "the divisions and modular exponentiations in "+fn+" are the reviewed ones", "",
+			"new or changed: "+strings.Join(added, ", ")+" — a zero divisor panics, a zero modulus makes Exp compute the unbounded power")
+	}
+	if only == nil {
+		R.Floor(rule, 12)
+	} else {
+		R.Floor(rule, 5)
+	}
+	_ = n
+}
+
+func genBigOps(a *An) {
+	fmt.Println()
+	fmt.Println("var frozenBigOps = map[string][]string{")
+	g := a.currentBigOps()
 	var keys []string
 	for k := range g {
 		keys = append(keys, k)
